@@ -3,7 +3,11 @@
    returned; schedule independence across thread pools.  Correspondence: replay of the
    logged step sequence on the abstract machine (Algo/Ess.v), when available. *)
 open Model
+open Model.EssSpecM
+open Model.EssM
 type string = Stdlib.String.t
+let max = Stdlib.max
+let min = Stdlib.min
 open Conv
 
 let nats l = List.map nat_of_int l
